@@ -1,6 +1,7 @@
 package interp
 
 import (
+	"math/bits"
 	"fmt"
 	"go/token"
 	"go/types"
@@ -53,7 +54,7 @@ func insertionSort(n int, less func(i, j int) bool, swap func(i, j int)) {
 	}
 }
 
-func sortSliceModel(fr *frame, a []value) value {
+func sortSliceModel(fr *frame, a []value, stable bool) value {
 	si := a[0].(iface)
 	if si.t == nil {
 		panic(targetPanic{v: mkError("reflect: call of Swapper on zero Value")})
@@ -66,9 +67,15 @@ func sortSliceModel(fr *frame, a []value) value {
 	if len(s) > 400 {
 		Unsupported("sort of %d elements", len(s))
 	}
-	insertionSort(len(s),
-		func(i, j int) bool { return cx.BranchV(call(fr.i, fr, fr.callpos, lessFn, []value{i, j})) },
-		func(i, j int) { s[i], s[j] = s[j], s[i] })
+	ls := lessSwap{
+		Less: func(i, j int) bool { return cx.BranchV(call(fr.i, fr, fr.callpos, lessFn, []value{i, j})) },
+		Swap: func(i, j int) { s[i], s[j] = s[j], s[i] },
+	}
+	if stable {
+		stable_func(ls, len(s))
+	} else {
+		pdqsort_func(ls, 0, len(s), bits.Len(uint(len(s))))
+	}
 	return nil
 }
 
@@ -187,8 +194,8 @@ func init() {
 	}
 	reg("runtime.GOMAXPROCS", procs)
 	reg("runtime.NumCPU", procs)
-	reg("sort.Slice", sortSliceModel)
-	reg("sort.SliceStable", sortSliceModel)
+	reg("sort.Slice", func(fr *frame, a []value) value { return sortSliceModel(fr, a, false) })
+	reg("sort.SliceStable", func(fr *frame, a []value) value { return sortSliceModel(fr, a, true) })
 	reg("sort.Strings", func(fr *frame, a []value) value {
 		s := a[0].([]value)
 		insertionSort(len(s),
